@@ -119,9 +119,9 @@ Record wf (st : udfdir) (g : Z) (cs : list (list Z * bool)) : Prop := {
   wf_g : g = ceiling_div (ud_info_len st) 2048;
   wf_lbr : ceiling_div (ud_info_len st) 2048 <= ud_lbr st }.
 
-Lemma names_of_wf st g cs : wf st g cs -> udfdir_names st = cs.
+Lemma names_of_wf st g cs : wf st g cs -> dir_names st = cs.
 Proof.
-  intros W. unfold udfdir_names. rewrite (wf_descs _ _ _ W). cbn [filter parent_fident fi_isparent negb].
+  intros W. unfold dir_names. rewrite (wf_descs _ _ _ W). cbn [filter parent_fident fi_isparent negb].
   clear W. induction cs as [|[n d] r IH]; [reflexivity|]. cbn [map filter child_fident fi_isparent negb fst snd fi_name fi_isdir].
   f_equal. exact IH.
 Qed.
@@ -277,7 +277,7 @@ Proof. unfold udfdir_run. rewrite fold_left_app. reflexivity. Qed.
 Theorem udfdir_inv ops :
   let st := fst (udfdir_run ops) in
   ud_info_len st = udf_fid_length 0 +
-                   Fid.zsum (map (fun c => udf_fid_length (zlen (fst c))) (udfdir_names st)) /\
+                   Fid.zsum (map (fun c => udf_fid_length (zlen (fst c))) (dir_names st)) /\
   ud_ad_len st = ud_info_len st /\
   snd (udfdir_run ops) = ceiling_div (ud_info_len st) 2048.
 Proof.
@@ -348,18 +348,18 @@ Qed.
    the others in place; nothing sorts the list); no two children share an fi; the exact acceptance
    conditions; a refused operation returns the state unchanged with delta 0 *)
 Theorem udfdir_names ops :
-  let st := fst (udfdir_run ops) in let cs := udfdir_names st in
+  let st := fst (udfdir_run ops) in let cs := dir_names st in
   ud_descs st = parent_fident :: map child_fident cs /\
   NoDup (map fst cs) /\ Forall (fun c => zlen (fst c) <= 254) cs /\
   (forall n d, In n (map fst cs) \/ 254 < zlen n -> udfdir_step 2048 st (Add n d) = (st, false, 0)) /\
   (forall n d, ~ In n (map fst cs) -> zlen n <= 254 ->
-     exists st' dl, udfdir_step 2048 st (Add n d) = (st', true, dl) /\ udfdir_names st' = cs ++ [(n, d)]) /\
+     exists st' dl, udfdir_step 2048 st (Add n d) = (st', true, dl) /\ dir_names st' = cs ++ [(n, d)]) /\
   (forall n ne, ~ In n (map fst cs) -> udfdir_step 2048 st (Remove n ne) = (st, false, 0)) /\
   (forall n d ne, In (n, d) cs -> n = [] \/ d && ne = true ->
      udfdir_step 2048 st (Remove n ne) = (st, false, 0)) /\
   (forall n d ne, In (n, d) cs -> n <> [] -> d && ne = false ->
      exists st' dl, udfdir_step 2048 st (Remove n ne) = (st', true, - dl) /\
-                    udfdir_names st' = remove_name n cs).
+                    dir_names st' = remove_name n cs).
 Proof.
   cbv zeta. destruct (run_wf ops) as (cs & W). rewrite (names_of_wf _ _ _ W).
   split; [exact (wf_descs _ _ _ W)|]. split; [exact (wf_nodup _ _ _ W)|]. split; [exact (wf_short _ _ _ W)|].
@@ -408,7 +408,7 @@ Qed.
 
 Theorem udfdir_layout ops :
   let st := fst (udfdir_run ops) in let lens := udfdir_lens st in let blocks := snd (udfdir_run ops) in
-  lens = udf_fid_length 0 :: map (fun c => udf_fid_length (zlen (fst c))) (udfdir_names st) /\
+  lens = udf_fid_length 0 :: map (fun c => udf_fid_length (zlen (fst c))) (dir_names st) /\
   fits 2048 lens /\ Fid.zsum lens = ud_info_len st /\
   fid_locations 2048 lens = map (fun s => s / 2048) (starts 0 lens) /\
   Forall (fun l => 0 <= l < blocks) (fid_locations 2048 lens) /\
@@ -506,3 +506,64 @@ Proof.
   destruct (fold_left _ _ _) as [a b c d]. destruct st as [a' b' c' d'].
   cbn [ud_descs ud_info_len ud_ad_len ud_lbr app] in *. congruence.
 Qed.
+
+(* ---- non-vacuity: values observed on the library (PYTHONPATH=/repo; iso.new(udf='2.60');
+   iso.add_directory(udf_path='/d'); add_fp / add_directory / rm_hard_link / rm_directory on /d/<name>;
+   blocks = 1 + the changes of partitions[0].part_length minus the File Entry blocks) ---- *)
+Definition nm (k : Z) : list Z := repeat 97 253 ++ [k].                 (* 'a' * 253 + chr(k) *)
+Definition wide254 : list Z := concat (repeat [1; 65] 127).             (* 'Ł' * 127 in utf-16_be *)
+Definition ex_history : list op :=
+  map (fun k => Add (nm k) false) [1; 2; 3; 4; 5; 6; 7] ++           (* the 7th crosses into block 2 *)
+  [Add (nm 3) false;                                                   (* duplicate: refused *)
+   Remove [122; 122] false;                                            (* missing: refused *)
+   Remove (nm 2) false; Remove (nm 5) false;                           (* back to one block *)
+   Add (repeat 120 255) false;                                         (* 255 bytes: refused *)
+   Add [115; 117; 98] true;                                            (* add_directory('/d/sub') *)
+   Remove [115; 117; 98] true;                                         (* rm_directory, not empty: refused *)
+   Add (nm 2) false; Add wide254 false;                                (* into block 2 again *)
+   Remove [115; 117; 98] false].
+Example ex_history_probe :
+  run_probe ex_history =
+  [(1, 336, 336, 1); (1, 632, 632, 1); (1, 928, 928, 1); (1, 1224, 1224, 1); (1, 1520, 1520, 1);
+   (1, 1816, 1816, 1); (1, 2112, 2112, 2); (0, 2112, 2112, 2); (0, 2112, 2112, 2); (1, 1816, 1816, 1);
+   (1, 1520, 1520, 1); (0, 1520, 1520, 1); (1, 1564, 1564, 1); (0, 1564, 1564, 1); (1, 1860, 1860, 1);
+   (1, 2156, 2156, 2); (1, 2112, 2112, 2)] /\
+  run_probe_lbr ex_history = [1; 1; 1; 1; 1; 1; 2; 2; 2; 2; 2; 2; 1; 1; 1; 2; 2] /\
+  run_final_fis ex_history = [[]; nm 1; nm 3; nm 4; nm 6; nm 7; nm 2; wide254].
+Proof. vm_compute. repeat split; reflexivity. Qed.
+
+(* /d holding a (empty file), U+0141 b (3-byte file), sub (directory), written with write_fp: the
+   168 bytes at the directory's data location (relative block 5), with the encodings and ICB
+   addresses read back from the library objects *)
+Definition ex_area_bytes : list Z :=
+  [1; 1; 2; 0; 202; 0; 0; 0; 71; 98; 24; 0; 5; 0; 0; 0; 1; 0; 10; 0; 0; 8; 0; 0; 2; 0; 0; 0; 0; 0; 0; 0; 0; 0; 0; 0; 0; 0; 0; 0;
+   1; 1; 2; 0; 109; 0; 0; 0; 51; 25; 24; 0; 5; 0; 0; 0; 1; 0; 0; 2; 0; 8; 0; 0; 8; 0; 0; 0; 0; 0; 0; 0; 9; 1; 0; 0; 0; 0; 8; 97;
+   1; 1; 2; 0; 122; 0; 0; 0; 94; 247; 28; 0; 5; 0; 0; 0; 1; 0; 0; 5; 0; 8; 0; 0; 9; 0; 0; 0; 0; 0; 0; 0; 10; 1; 0; 0; 0; 0; 16; 1;
+   65; 0; 98; 0;
+   1; 1; 2; 0; 71; 0; 0; 0; 56; 234; 28; 0; 5; 0; 0; 0; 1; 0; 2; 4; 0; 8; 0; 0; 6; 0; 0; 0; 0; 0; 0; 0; 7; 1; 0; 0; 0; 0; 8; 115;
+   117; 98; 0; 0].
+Example ex_area :
+  let st := fst (udfdir_run [Add [97] false; Add [1; 65; 0; 98] false; Add [115; 117; 98] true]) in
+  udfdir_area 5 st [(8, 0, 2); (8, 265, 8); (16, 266, 9); (8, 263, 6)] = Some ex_area_bytes /\
+  udfdir_tag_locs 5 st = [5; 5; 5; 5] /\ ud_info_len st = 168.
+Proof. vm_compute. repeat split; reflexivity. Qed.
+
+(* the harness checker: the second case has a wrong block count in its last observation *)
+Example ex_bad_cases :
+  bad_udfdir_cases 0
+    [([Add [97] false; Add [97] true; Remove [98] false; Remove [97] false],
+      [(1, 80, 80, 1); (0, 80, 80, 1); (0, 80, 80, 1); (1, 40, 40, 1)], [1; 1; 1; 1], [[]]);
+     (lbr_witness,
+      [(1, 336, 336, 1); (1, 632, 632, 1); (1, 928, 928, 1); (1, 1224, 1224, 1); (1, 1520, 1520, 1);
+       (1, 1816, 1816, 1); (1, 2112, 2112, 2); (1, 1816, 1816, 2)], [1; 1; 1; 1; 1; 1; 2; 2],
+      [[]; nm 2; nm 3; nm 4; nm 5; nm 6; nm 7])] = [1%nat].
+Proof. vm_compute. reflexivity. Qed.
+
+Print Assumptions udfdir_inv.
+Print Assumptions udfdir_lbr.
+Print Assumptions udfdir_lbr_fresh_refuted.
+Print Assumptions udfdir_lbr_never_read.
+Print Assumptions udfdir_names.
+Print Assumptions udfdir_layout.
+Print Assumptions udfdir_layout_bytes.
+Print Assumptions udfdir_reopen.
